@@ -12,7 +12,7 @@
     the class ([in_cls_dict], [slots_class]).
 
     The class is a non-exception class with plain fields (no validators, converters,
-    hooks) and plain (undecorated) bases; [cache_hash], [auto_exc], [these],
+    hooks); its base is undecorated or a (non-frozen) attrs class; [cache_hash], [auto_exc], [these],
     [on_setattr] are left at their defaults (C04/C08/C15 cover them).
 
     Definitions only; proofs are in [C14/Proofs.v]. *)
@@ -59,6 +59,15 @@ Definition mem (s : dset) (d : dn) : bool :=
   | Dg => s_g s | Dst => s_st s | Dm => s_m s | Dsa => s_sa s | Dda => s_da s
   end.
 
+(** The (single) base class: an undecorated class, or an attrs class (never frozen, one
+    plain field, built with [auto_detect=True]) that is slotted or not, has an
+    attrs-generated [__getstate__]/[__setstate__] pair or not, and has a generated
+    [__init__] or (else) a generated [__attrs_init__]. *)
+Inductive basek := BPlain | BAttrs (bslots bgs binit : bool).
+
+Definition base_generated_pair (b : basek) : bool :=
+  match b with BPlain => false | BAttrs _ gs _ => gs end.
+
 (** The decorator call and the class it is applied to.  [option] arguments:
     [None] = keyword not passed (the signature default applies). *)
 Record cfg := C {
@@ -77,7 +86,8 @@ Record cfg := C {
   c_gs : tri;               (* getstate_setstate *)
   c_ma : option bool;       (* match_args *)
   c_own : dset;             (* dunders defined in the class body *)
-  c_inh : dset              (* dunders defined by a plain base class *)
+  c_inh : dset;             (* dunders defined by the user in the body of the base class *)
+  c_base : basek
 }.
 
 (** ** Constants read off the two signatures (tied to the source by
@@ -125,6 +135,11 @@ Definition in_cls_dict (c : cfg) (d : dn) : bool :=
 (** [_has_own_attribute(cls, name)]: [name in cls.__dict__] — bases are not consulted. *)
 Definition has_own_attribute (c : cfg) (d : dn) : bool := in_cls_dict c d.
 
+(** [_inherits_attrs_getstate(cls)]: [getattr(cls, "__getstate__")] carries the
+    [__attrs_generated__] mark — the base's generated one, unless the body shadows it. *)
+Definition inherits_attrs_getstate (c : cfg) : bool :=
+  base_generated_pair (c_base c) && negb (has_own_attribute c Dg).
+
 (** [_determine_attrs_eq_order(cmp, eq, order, None)]; [None] = [ValueError]. *)
 Definition determine_attrs_eq_order (cmp eq order : tri) : option (tri * tri) :=
   if negb (is_none cmp) && (negb (is_none eq) || negb (is_none order)) then None
@@ -167,9 +182,9 @@ Definition wrap (c : cfg) : res :=
     let is_frozen := c_frozen c in
     let has_own_setattr := ad && has_own_attribute c Dsa in
     if has_own_setattr && is_frozen then Err EValue else
-    (* _ClassBuilder.__init__; [default=slots or _inherits_attrs_getstate(cls)]: the second
-       disjunct is about attrs-made methods of an attrs base - bases are plain here *)
-    let gs := determine_whether_to_implement c (c_gs c) ad gs_dunders (slots c) in
+    (* _ClassBuilder.__init__; [default=slots or _inherits_attrs_getstate(cls)] *)
+    let gs := determine_whether_to_implement c (c_gs c) ad gs_dunders
+                (slots c || inherits_attrs_getstate c) in
     let w_frozen := if is_frozen then [(Dsa, WGen); (Dda, WGen)] else [] in
     let w_gs := if gs then [(Dg, WGen); (Dst, WGen)] else [] in
     (* add_repr / add_str *)
@@ -297,7 +312,10 @@ Definition explicit_flag (c : cfg) (g : group) : tri :=
 
 Definition documented_default (c : cfg) (g : group) : bool :=
   match g with
-  | GPickle => slots c
+  | GPickle =>
+      (* slotted classes need the helpers; so does a class that would otherwise inherit
+         an attrs-generated pair, which only knows the base's fields *)
+      slots c || (base_generated_pair (c_base c) && negb (class_defines c Dg))
   | _ => true           (* GHash has its own table below *)
   end.
 
